@@ -1,12 +1,18 @@
 (* C05 — rankings do not depend on how the decision problem is written down.
-   PARTIAL: the theorems cover the order of alternatives (all row-wise scores; ideal / reference
-   point), the order of criteria and the weight scale for the linear scores (WSM, RatioMOORA), the
-   weight scale for ReferencePointMOORA and for TOPSIS closeness; labels never enter a kernel (by
-   typing: the kernels take no labels).  The remaining combinations (TOPSIS distances under criteria
-   permutation, WPM / FMF, MultiMOORA, ELECTRE, pipelines) are covered by the correspondence only. *)
+   PARTIAL: the theorems cover
+   - the order of alternatives: all row-wise scores and their whole ranking (WSM, WPM, RatioMOORA, FMF),
+     the ideal / reference point and the ReferencePointMOORA ranking, MultiMOORA's dominance count,
+     every ELECTRE table, relation, the kernel and the ELECTRE2 distillation and final ranking;
+   - the order of criteria: the linear scores (WSM, RatioMOORA), ELECTRE concordance / discordance /
+     weight comparison (specified and as called) and the discordance scale;
+   - the weight scale: WSM, RatioMOORA, ReferencePointMOORA, TOPSIS closeness, WPM, FMF;
+   - labels never enter a kernel (by typing: the kernels take no labels).
+   The remaining combinations (TOPSIS distances and the reference-point maximum under criteria
+   permutation, pipelines) are covered by the correspondence only. *)
 From Coq Require Import ZArith QArith List Bool Arith Permutation.
 From Coq Require Import Reals.
-From SKC Require Import Base.QBool Base.QList Base.QRank Model.Agg Theory.Agg Theory.RankFacts Theory.Invariance Theory.RealClosing.
+From SKC Require Import Base.QBool Base.QList Base.QRank Model.Agg Model.Electre Theory.Agg Theory.RankFacts Theory.Invariance
+  Theory.RealClosing Theory.MultiMoora Theory.RankPerm Theory.RankPerm2 Theory.ElectreInv.
 Import ListNotations.
 
 (* ---- order of the alternatives -------------------------------------------------------------------- *)
@@ -96,6 +102,96 @@ Theorem C05_fmf_weight_scale : forall c objs w a,
   RealClosing.fmf objs (map (Rmult c) w) a = (RealClosing.fmf objs w a + fmf_shift objs c)%R.
 Proof. exact fmf_weight_scale. Qed.
 Print Assumptions C05_fmf_weight_scale.
+
+(* ---- whole rankings follow the alternatives ------------------------------------------------------ *)
+(* sigma lists, for each position of the second presentation, the position in the first *)
+Theorem C05_ranking_follows_alternatives_rowwise : forall rev (f : list Q -> Q) sigma rows,
+  Permutation sigma (seq 0 (length rows)) ->
+  rank_values rev (map f (reindex [] sigma rows)) = reindex 0%nat sigma (rank_values rev (map f rows)).
+Proof. exact rowwise_ranking_follows_alternatives. Qed.
+Print Assumptions C05_ranking_follows_alternatives_rowwise.
+
+Theorem C05_refpoint_ranking_follows_alternatives : forall objs w sigma rows,
+  Permutation sigma (seq 0 (length rows)) ->
+  rank_values false (refpoint_scores objs w (reindex [] sigma rows)) =
+  reindex 0%nat sigma (rank_values false (refpoint_scores objs w rows)).
+Proof. exact refpoint_ranking_follows_alternatives. Qed.
+Print Assumptions C05_refpoint_ranking_follows_alternatives.
+
+(* MultiMOORA: the final score is a function of the alternative's own rank row and the multiset of rows *)
+Theorem C05_multimoora_score_follows_alternatives : forall rm rm',
+  Forall (fun r => length r = 3%nat) rm -> Permutation rm rm' ->
+  Permutation (combine rm (mm_score rm)) (combine rm' (mm_score rm')).
+Proof.
+  intros rm rm' H P.
+  rewrite (mm_score_is_spec rm H), (mm_score_is_spec rm' (Permutation_Forall P H)).
+  exact (mm_spec_row_order_irrelevant rm rm' P).
+Qed.
+Print Assumptions C05_multimoora_score_follows_alternatives.
+
+(* ---- ELECTRE ----------------------------------------------------------------------------------------- *)
+Theorem C05_electre_concordance_criteria_order : forall objs w ra rb objs' w' ra' rb',
+  Permutation (quads objs w ra rb) (quads objs' w' ra' rb') ->
+  conc_cell objs w ra rb == conc_cell objs' w' ra' rb'.
+Proof. exact conc_criteria_order_irrelevant. Qed.
+Print Assumptions C05_electre_concordance_criteria_order.
+
+Theorem C05_electre_discordance_criteria_order : forall objs ra rb objs' ra' rb' m rows m' rows',
+  Permutation (trips objs ra rb) (trips objs' ra' rb') -> Permutation (cols m rows) (cols m' rows') ->
+  disc_num objs ra rb == disc_num objs' ra' rb' /\ max_range m rows == max_range m' rows'.
+Proof.
+  intros. split; [apply disc_num_criteria_order_irrelevant|apply max_range_criteria_order_irrelevant]; assumption.
+Qed.
+Print Assumptions C05_electre_discordance_criteria_order.
+
+Theorem C05_electre_weight_comparison_criteria_order : forall objs w ra rb objs' w' ra' rb',
+  Permutation (quads objs w ra rb) (quads objs' w' ra' rb') ->
+  wor_sum objs w ra rb == wor_sum objs' w' ra' rb' /\
+  wor_called_sum objs w ra rb == wor_called_sum objs' w' ra' rb'.
+Proof.
+  intros. split; [apply wor_sum_criteria_order_irrelevant|apply wor_called_sum_criteria_order_irrelevant]; assumption.
+Qed.
+Print Assumptions C05_electre_weight_comparison_criteria_order.
+
+Theorem C05_electre_tables_follow_alternatives : forall objs w sigma rows i j,
+  Permutation sigma (seq 0 (length rows)) -> (i < length rows)%nat -> (j < length rows)%nat ->
+  qget (concordance objs w (reindex [] sigma rows)) i j =
+    qget (concordance objs w rows) (nth i sigma 0%nat) (nth j sigma 0%nat) /\
+  qget (discordance objs (reindex [] sigma rows)) i j ==
+    qget (discordance objs rows) (nth i sigma 0%nat) (nth j sigma 0%nat).
+Proof.
+  intros. split; [apply concordance_follows_alternatives|apply discordance_follows_alternatives]; assumption.
+Qed.
+Print Assumptions C05_electre_tables_follow_alternatives.
+
+Theorem C05_electre_outranking_follows_alternatives : forall n sg conc conc' disc disc' p q i j,
+  Permutation (map sg (seq 0 n)) (seq 0 n) ->
+  (forall i j, (i < n)%nat -> (j < n)%nat -> qget conc' i j == qget conc (sg i) (sg j)) ->
+  (forall i j, (i < n)%nat -> (j < n)%nat -> qget disc' i j == qget disc (sg i) (sg j)) ->
+  (i < n)%nat -> (j < n)%nat ->
+  bget (outrank_of n p q conc' disc') i j = bget (outrank_of n p q conc disc) (sg i) (sg j).
+Proof. intros n sg conc conc' disc disc' p q i j P Hc Hd. exact (outrank_follows_alternatives n sg P conc conc' disc disc' Hc Hd p q i j). Qed.
+Print Assumptions C05_electre_outranking_follows_alternatives.
+
+Theorem C05_electre_kernel_follows_alternatives : forall n sg (t t' : list (list bool)) i,
+  Permutation (map sg (seq 0 n)) (seq 0 n) ->
+  (forall a b, (a < n)%nat -> (b < n)%nat -> bget t' a b = bget t (sg a) (sg b)) ->
+  (i < n)%nat -> nth i (kernel n t') false = nth (sg i) (kernel n t) false.
+Proof. intros n sg t t' i P. exact (kernel_follows_alternatives n sg P t t' i). Qed.
+Print Assumptions C05_electre_kernel_follows_alternatives.
+
+Theorem C05_electre2_ranking_follows_alternatives : forall n sg (ts tw ts' tw' : list (list bool)),
+  Permutation (map sg (seq 0 n)) (seq 0 n) ->
+  (forall i j, (i < n)%nat -> (j < n)%nat -> bget ts' i j = bget ts (sg i) (sg j)) ->
+  (forall i j, (i < n)%nat -> (j < n)%nat -> bget tw' i j = bget tw (sg i) (sg j)) ->
+  match electre2_rank n ts tw, electre2_rank n ts' tw' with
+  | Some (d, iv, sc, rk), Some (d', iv', sc', rk') =>
+      follows n sg d d' /\ follows n sg iv iv' /\ follows n sg rk rk'
+  | None, None => True
+  | _, _ => False
+  end.
+Proof. intros n sg ts tw ts' tw' P. exact (electre2_rank_follows_alternatives n sg P ts tw ts' tw'). Qed.
+Print Assumptions C05_electre2_ranking_follows_alternatives.
 
 Example C05_example :
   dot [1; 2; 3] [4; 5; 6] == dot [3; 1; 2] [6; 4; 5] /\
